@@ -472,25 +472,12 @@ def shrink(sc, gobin, cbin, prog, pkt, reloads):
     return prog, pk, reloads
 
 
-def matcher_ids(prog, pkt, guard_violated):
+def matcher_ids(prog, pkt, outside):
     kinds = sorted(set(c["kind"] for r in prog["rules"] for c in r["conds"]))
     ids = ["kinds=" + "+".join(kinds)]
-    empty_pname = any(c["kind"] == "pname" and v == "" for r in prog["rules"] for c in r["conds"] for k, v in c["params"])
-    if empty_pname and pkt["wan"] and pkt["pname"] == "00" * 16 and guard_violated:
-        ids.append("C02/empty-pname-matches-unknown-wan-process")
+    if outside:
+        ids.append("C02/lan-probe-with-process-name")   # not generated: outside the property's quantifier
     return sorted(set(ids))
-
-
-def neutralise_empty_pname(prog):
-    """drop the empty process name (replace by a name no probe carries) so that an independent defect is not hidden"""
-    p = copy.deepcopy(prog)
-    for r in p["rules"]:
-        for c in r["conds"]:
-            if c["kind"] == "pname":
-                for kv in c["params"]:
-                    if kv[1] == "":
-                        kv[1] = "zz-nobody"
-    return p
 
 
 def probe_view(p):
@@ -516,7 +503,8 @@ def main(argv):
     out.coverage = cov
     out.assumptions = ["LPM lookups: the kernel trie answers by longest-prefix semantics over the installed keys; the userspace trie is modelled as CIDR containment (C12 proves it); every probe compares both real answers through the decisions",
                        "the domain_routing_map entry of the destination address is the bitmap MatchDomainBitmap returns for the probe's domain (maintained by C10; produced here by the real buildDomainRoutingOwnerSnapshot)",
-                       "process-name guards agree (is_wan iff the name's first byte is non-zero) or no match-set equals the probe's name: hypothesis of C02_kscan_scan_partial; the full statement is refuted (C02_kscan_scan_refuted)",
+                       "probes are those of the property's quantifier: a LAN probe carries no process name (do_tproxy_lan_ingress never passes one); without this side condition the statement is false (C02_kscan_scan_unrestricted_refuted: pname(curl) and is_wan=0 with the name curl)",
+                       "no domain is bound to an unspecified destination address (extractIPsFromDnsCache skips :: and 0.0.0.0): probes to such addresses carry no domain",
                        "at most MaxMatchSetLen match-sets and LPM tries (larger programs are rejected at build time; C17)"]
 
     with vlib.Scratch() as sc:
@@ -573,7 +561,7 @@ def main(argv):
                 print("userspace matcher (Go):", json.dumps({k: r0.get(k) for k in ("o", "mark", "must", "err")}))
                 w = (cwords or {}).get((0, 0))
                 print("kernel route() word:", w, "" if w is None or w < 0 else "= outbound %d mark %d must %d" % (w & 0xff, (w >> 8) & 0xffffffff, (w >> 40) & 1))
-            print("codes: 1 C<>kernel model  2 C<>dns_adjust(Go) [the property]  3 kernel model<>spec  4 Go<>userspace model  5/6/7 encodings  9 outside the process-name hypothesis")
+            print("codes: 1 C<>kernel model  2 C<>dns_adjust(Go) [the property]  3 kernel model<>spec  4 Go<>userspace model  5/6/7 encodings  9 probe outside the quantifier (LAN probe with a process name)")
             print(json.dumps({"errors": errs, "fatal": fatal}))
             return 1 if (fatal or errs) else 0
 
@@ -619,7 +607,7 @@ def main(argv):
             """a correspondence failure: impl<>model, encodings, harness trouble, or model<>spec on a probe where impl=spec"""
             return any(c in (1, 4, 5, 6, 7, 8) or (c == 3 and (p, 2) not in e) for (p, c) in e)
         other_fail = lambda: sorted(i for i, e in all_err.items() if corr_broken(e))
-        # property violations inside the partial theorem's hypotheses (the known process-name divergence must not hide others)
+        # property violations on probes of the quantifier
         real_spec = lambda: sorted(i for i, e in all_err.items() if any(c == 2 and (p, 9) not in e for (p, c) in e))
         if (not proof_ok or other_fail()) and not real_spec() and not fatal:
             widened = True
@@ -647,17 +635,12 @@ def main(argv):
             out.violation("impl_vs_spec_%d" % n_classes,
                           {"program": sprog, "program_text": c01.render(sprog), "packet": spkt, "reloads": srel,
                            "userspace": {k: impl.get(k) for k in ("o", "mark", "must", "err")}, "kernel_word": w, "original_case_index": i,
-                           "outside_pname_hypothesis": guard_violated, "port_codec": (res1[0].get("portcodec") if res1 else None),
+                           "outside_quantifier_lan_probe_with_name": guard_violated, "port_codec": (res1[0].get("portcodec") if res1 else None),
                            "how": "./check C02 --replay <this file>; the text is parsed by config_parser, lowered by NewRoutingMatcherBuilder, its match-set bytes, ring slots and LPM keys are loaded into the host-compiled tproxy.c maps and the real route() is called with the probe; RoutingMatcher.Match gets the same probe"},
                           "kernel route() and userspace RoutingMatcher.Match decide differently (%s): %s, userspace %s" % (
                               ", ".join(ids), kdesc, json.dumps({k: impl.get(k) for k in ("o", "mark", "must", "err")})),
                           matchers=ids)
-            if "C02/empty-pname-matches-unknown-wan-process" in ids and queue:
-                rest = [(neutralise_empty_pname(p2), k2, r2, i2) for (p2, k2, r2, i2) in queue]
-                f2 = still_fails(sc, gobin, cbin, [make_case(q, [k2], r2) for (q, k2, r2, _) in rest], "neutral")
-                if f2 is not None:
-                    queue = [rest[j] for j in range(len(rest)) if f2[j]]
-            elif queue:
+            if queue:
                 feats = set(c["kind"] for r in sprog["rules"] for c in r["conds"])
                 queue = [q for q in queue if not feats <= set(c["kind"] for r in q[0]["rules"] for c in r["conds"])]
         # correspondence failures on programs none of whose probes violates the property itself have no failing input
